@@ -531,7 +531,7 @@ func HoldsOnEdge(v ssa.Value, want bool, from, to *ssa.BasicBlock) bool {
 		break
 	}
 	phi, isPhi := c.(*ssa.Phi)
-	if !isPhi || phi.Block() != from {
+	if !isPhi || !(phi.Block() == from || phi.Block().Dominates(from)) {
 		return false
 	}
 	phiVal := to == from.Succs[0] // value of the (possibly negated) condition on this edge
@@ -541,11 +541,12 @@ func HoldsOnEdge(v ssa.Value, want bool, from, to *ssa.BasicBlock) bool {
 	thr := threadInfo(fn)
 	reachable := ReachEdges(fn.Blocks[0], nil, nil)
 	any := false
-	for i, p := range from.Preds {
-		if !reachable[Edge{p, from}] {
+	pb := phi.Block() // the join where the flag got its value (from itself, or a block that dominates it)
+	for i, p := range pb.Preds {
+		if !reachable[Edge{p, pb}] {
 			continue
 		}
-		if only, forced := thr[Edge{p, from}]; forced && only != to {
+		if only, forced := thr[Edge{p, pb}]; pb == from && forced && only != to {
 			continue
 		}
 		if k, isC := ConstBool(phi.Edges[i]); isC && k != phiVal {
